@@ -16,6 +16,7 @@ CONSTANTS
   MaxTops = 1
   AliasAlpha <- None
   MaxAliases = 0
+  NestedLike = FALSE
   CmdKinds <- None
 INVARIANT SafeVis
 INVARIANT SafeAccess
